@@ -90,7 +90,10 @@ def run_once(nsrc, nfreq, kind, max_workers, file_dir=None, tqdm=True,
         sim = emg3d.Simulation(
             survey, model, max_workers=max_workers,
             receiver_interpolation='linear', file_dir=file_dir,
-            tqdm_opts=False, verb=-1, **gkw)
+            tqdm_opts=False, verb=-1,
+            # different tolerances for forward and adjoint solves: the
+            # shared solver options are switched between the run kinds
+            solver_opts={'tol': 1e-6, 'tol_gradient': 1e-4}, **gkw)
         with warnings.catch_warnings():
             warnings.simplefilter('ignore')
             sim.compute()
@@ -112,6 +115,15 @@ def run_once(nsrc, nfreq, kind, max_workers, file_dir=None, tqdm=True,
                     obs['gradient2'] = np.array(sim.gradient)
                 if kind == 'jvec':
                     obs['jvec2'] = np.array(sim.jvec(vec))
+                # ... and once more from scratch on the same object (after
+                # whatever the run kind left behind): clean, compute
+                sim.clean('computed')
+                sim.compute()
+                obs['efields3'] = [np.array(sim.get_efield(s, f).field)
+                                   for s, f in sim._srcfreq]
+                obs['synthetic3'] = np.array(sim.data.synthetic.data)
+                if kind == 'gradient':
+                    obs['gradient3'] = np.array(sim.gradient)
         return sim
 
     if prefix is None:
@@ -134,7 +146,7 @@ def differences(obs, ref):
     """Names of observations that are not bit-identical to the reference."""
     bad = []
     for k, v in obs.items():
-        r = ref[k[:-1]] if k.endswith('2') else ref[k]
+        r = ref[k[:-1]] if k[-1] in '23' else ref[k]
         if isinstance(v, list):
             for i, (a, b) in enumerate(zip(v, r)):
                 if not np.array_equal(a, b):
@@ -175,7 +187,7 @@ def case(c):
     variant = c.get('variant', 'same')
     ref = reference(nsrc, nfreq, kind, variant)
     viol = []
-    rb = differences({k_: v for k_, v in ref.items() if k_.endswith('2')},
+    rb = differences({k_: v for k_, v in ref.items() if k_[-1] in '23'},
                      ref)
     if rb:
         viol.append({'cls': 'repeating-the-computation-changes-results',
